@@ -21,6 +21,8 @@ Definition sMAP_KV_PAIR : sym := [77;65;80;95;95;75;86;95;80;65;73;82]%Z.   (* M
 Definition sNUM : sym := [78;85;77]%Z.   (* NUM *)
 Definition sRB : sym := [93]%Z.   (* ] *)
 Definition sRC : sym := [125]%Z.   (* } *)
+Definition sROW : sym := [82;79;87]%Z.   (* ROW *)
+Definition sROW_TAIL : sym := [82;79;87;95;95;84;65;73;76]%Z.   (* ROW__TAIL *)
 Definition sSEMI : sym := [59]%Z.   (* ; *)
 Definition sSEQ : sym := [83;69;81]%Z.   (* SEQ *)
 Definition sSEQxELEMENT : sym := [83;69;81;120;69;76;69;77;69;78;84]%Z.   (* SEQxELEMENT *)
@@ -56,3 +58,11 @@ Definition w8_raw : rt := (RNode sE [(RNode sLIST [(RTok sLB [91]%Z); (RNode sVA
 (* w7: text 'a b ;' *)
 Definition w7_g : gspec := [(sE, (PPlain [[sLIST; sSEMI]])); (sLIST, (PList None sWORD None None None None))].
 Definition w7_raw : rt := (RNode sE [(RNode sLIST [(RTok sWORD [97]%Z); (RNode sLIST [(RTok sWORD [98]%Z); (RNull sLIST)])]); (RTok sSEMI [59]%Z)]).
+(* items that are DIRECTLY template symbols (no choice symbol in between): rows that are bracket-less lists (one of them
+   empty) and rows that are sequences (one of them empty, one holding a map whose value is again a list of rows) *)
+(* w9: text '[a, b; ; c]' *)
+Definition w9_g : gspec := [(sE, (PPlain [[sLIST]])); (sLIST, (PList (Some sLB) sROW (Some sSEMI) (Some sRB) None None)); (sROW, (PList None sWORD (Some sCOMMA) None None None))].
+Definition w9_raw : rt := (RNode sE [(RNode sLIST [(RTok sLB [91]%Z); (RNode sROW [(RTok sWORD [97]%Z); (RNode sROW_TAIL [(RTok sCOMMA [44]%Z); (RTok sWORD [98]%Z); (RNull sROW_TAIL)])]); (RNode sLIST_TAIL [(RTok sSEMI [59]%Z); (RNull sROW); (RNode sLIST_TAIL [(RTok sSEMI [59]%Z); (RNode sROW [(RTok sWORD [99]%Z); (RNull sROW_TAIL)]); (RNull sLIST_TAIL)])]); (RTok sRB [93]%Z)])]).
+(* w10: text '[s {k: [p]}; ; g]' *)
+Definition w10_g : gspec := [(sE, (PPlain [[sLIST]])); (sLIST, (PList (Some sLB) sSEQ (Some sSEMI) (Some sRB) None None)); (sSEQ, (PSeq [sWORD; sMAP])); (sMAP, (PMap (Some sLC) sWORD (Some sCOLON) sVALUE (Some sCOMMA) (Some sRC) None None)); (sVALUE, (PPlain [[sWORD]; [sLIST]]))].
+Definition w10_raw : rt := (RNode sE [(RNode sLIST [(RTok sLB [91]%Z); (RSeq sSEQ [(RTok sWORD [115]%Z); (RNode sMAP [(RTok sLC [123]%Z); (RNode sMAP_KV_PAIR [(RTok sWORD [107]%Z); (RTok sCOLON [58]%Z); (RNode sVALUE [(RNode sLIST [(RTok sLB [91]%Z); (RSeq sSEQ [(RTok sWORD [112]%Z)]); (RNull sLIST_TAIL); (RTok sRB [93]%Z)])])]); (RNull sMAP_ELEMENTS); (RTok sRC [125]%Z)])]); (RNode sLIST_TAIL [(RTok sSEMI [59]%Z); (RSeq sSEQ (@nil rt)); (RNode sLIST_TAIL [(RTok sSEMI [59]%Z); (RSeq sSEQ [(RTok sWORD [103]%Z)]); (RNull sLIST_TAIL)])]); (RTok sRB [93]%Z)])]).
